@@ -19,7 +19,7 @@ type GenOpts struct {
 	Projects    bool // allow corpus projects (some have defective callees)
 	Loose       bool // allow files outside any repository
 	MaxRepos    int
-	MaxFiles    int // per repository
+	MaxFiles    int  // per repository
 	SelfArg     bool // allow called reusable workflows to be arguments themselves
 	PathConfigs bool // configs with `paths` ignore entries
 	Symlinks    bool // some workflow files are symbolic links to files outside their repository
